@@ -326,7 +326,9 @@ def run(ck, F, prefix='C11'):
             callers = {g['id'] for g in F.fn.values() for n in walk(g.get('body'))
                        if n.get('k') == 'call' and (n.get('callee') or {}).get('id', '').startswith(c['fn'] + '(')}
             makers.update(callers or {c['fn']})
-    QTAB = F.role_field('ipr::impl::type_factory', lambda fl: fl['t'].startswith('ipr::util::rb_tree::container<') and is_qualified_impl(F, fl['t'][len('ipr::util::rb_tree::container<'):-1]), 'table of qualified types')
+    import re as _re_q
+    _elem_q = lambda t: _re_q.sub(r'\s*\[\d+\]$', '', t)          # one table, or an array of tables selected by a value of the request
+    QTAB = F.role_field('ipr::impl::type_factory', lambda fl: _elem_q(fl['t']).startswith('ipr::util::rb_tree::container<') and is_qualified_impl(F, _elem_q(fl['t'])[len('ipr::util::rb_tree::container<'):-1]), 'table of qualified types')
     tab_users = {g['id'] for g in F.fn.values() for n in walk(g.get('body'))
                  if n.get('k') == 'member' and n.get('name') == QTAB and n.get('cls') == 'ipr::impl::type_factory'}
     only_node = all('rb_tree::container<' in m and 'make_node' in m for m in makers)
